@@ -506,6 +506,7 @@ def outcome_scenarios(rng, poll, prate, ptimeout, key_seed=0):
     E = [
         ('connect-failure', S([], conn='sockfail')),
         ('connect-failure-other', S([], conn='otherfail')),
+        ('selector-unavailable', S([], conn='selfail')),
         ('request-failure', S([], wfail={0})),
         ('rejected-401', S(reads([b'HTTP/1.1 401 No\r\n\r\n']) + eof)),
         ('rejected-bad-accept', S(reads([b'HTTP/1.1 101 Switching Protocols\r\nUpgrade: websocket\r\nConnection: Upgrade\r\nSec-WebSocket-Accept: AAAA\r\n\r\n']) + eof)),
